@@ -70,7 +70,7 @@ def _whole_defs(raw):
     return out
 
 
-def expand(raw, facts, keep=None, max_sites=40):
+def expand(raw, facts, keep=None, max_sites=40, closureless=True):
     """rewrite modelled combinator calls in place; returns the list of (combinator, closure path) expanded"""
     done = []
     defs = _whole_defs(raw)
@@ -109,6 +109,8 @@ def expand(raw, facts, keep=None, max_sites=40):
                     break
                 closures[src[1]] = cb
         if not ok:
+            continue
+        if not closures and not closureless:
             continue
         line = t.get('line')
         nl = len(raw['locals'])
